@@ -154,7 +154,7 @@ class C18(Prop):
     packages = {"int": "internal", "gu": "internal/grpcutil"}
     consts = ("int",)
     kinds = {"c18.err_connect": "int", "c18.err_go": "int", "c18.http": "int", "c18.codec_rt": "int", "c18.codec_unknown": "int",
-             "c18.codec_hist": "int", "c18.alias_http": "int", "c18.alias_md": "gu",
+             "c18.codec_hist": "int", "c18.codec_keep": "int", "c18.alias_http": "int", "c18.alias_md": "gu",
              "c18.err_grpc": "gu", "c18.md": "gu", "c18.md_back": "gu", "c18.outgoing": "gu", "c18.escape": "gu",
              "c18.percent": "gu", "c18.unpercent": "gu", "c18.b64": "gu"}
     rule = ("errors: codes 1..16 (+0, 17, 18, 100, -1, int32 bounds) x 9 message classes (unset, empty, ASCII, '%', non-ASCII, invalid UTF-8, "
@@ -170,7 +170,10 @@ class C18(Prop):
             "defaults written out, singular field twice, packed/unpacked/split repeated, unknown fields, over-long varints) through all error kinds, "
             "compared byte for byte. Histories: c18.codec_hist - ONE message object (ClientCompatRequest tree or google.protobuf.Struct = map values) "
             "changed in place in a nested message / list / map value between 2-5 Size/Marshal/MarshalAppend/MarshalStable calls, every output decoded "
-            "and compared with the current value and with a fresh build; c18.alias_http / c18.alias_md - for AddHeaders, AddTrailers, "
+            "and compared with the current value and with a fresh build; c18.codec_keep - the same histories with 3-8 encodings of DIFFERENT messages (shorter and "
+            "longer ones after each other) where all outputs of Marshal / MarshalAppend (destination of the call's own, with and without spare capacity) / "
+            "MarshalStable of both codecs are KEPT and decoded only after the last call (a returned slice must not be a view of memory a later call "
+            "writes); c18.alias_http / c18.alias_md - for AddHeaders, AddTrailers, "
             "ConvertToProtoHeader, ConvertProtoHeaderToMetadata, ConvertMetadataToProtoHeader: two destinations filled from one source (slices with "
             "spare capacity), a value appended to every list of each, the source scribbled over and appended to, first destination re-read; error "
             "kinds scribble the source error and a sibling result before the result is read. non-trivial = result longer than a tag")
@@ -202,11 +205,13 @@ class C18(Prop):
     level_text = ("Machine-checked proof (Coq) that the model of the six error conversions, the header<->metadata conversions, the outgoing-context "
                   "path, AddHeaders/ConvertToProtoHeader, percent-encoding and the strict codecs' own logic are lossless: round-trip laws for ALL "
                   "inputs and, for the header/metadata conversions and the codecs, for all HISTORIES in which the converted structures / message objects are "
-                  "used further (explicit-memory model: conversions_do_not_alias; codec_stateless; detail bytes handed on verbatim) (22 theorems, closed under the global context), the libraries entering as quantified functions under explicit round-trip "
+                  "used further (explicit-memory model: conversions_do_not_alias; codec_stateless; codec_outputs_are_values = every kept output of Marshal/MarshalAppend/MarshalStable, read again after all later calls, is still the encoding of its own message; detail bytes handed on verbatim) (23 theorems, closed under the global context), the libraries entering as quantified functions under explicit round-trip "
                   "contracts that the extracted instances are proved to meet; the model is tied to the Go code by a differential run on every check.")
     level_note = ("Trusted: Coq kernel, extraction, OCaml driver, harness; base64/protobuf/protojson/connect are contracts (base64 instance proved and "
                   "compared with Go), grpc-go/net/url/textproto behaviour is modelled and compared; the model-code correspondence is sampled "
-                  "(exhaustive over the 256 bytes and the small alphabets named in the rule), not proved. Nothing is partial: no theorem carries the suffix. "
+                  "(exhaustive over the 256 bytes and the small alphabets named in the rule), not proved. The output-memory model of codec_outputs_are_values has one cell per "
+                  "returned slice (a view of PART of a shared array is not modelled; MarshalAppend's destination is the call's own); sync.Pool reuse is scheduler-dependent in Go, "
+                  "so c18.codec_keep sees a pooled result only when the pool hands the same buffer back (same goroutine: practically always). Nothing is partial: no theorem carries the suffix. "
                   "Which peer installs which strict codec is set-up code outside this property: the table is regenerated from the peers' sources "
                   "(C18_Consts.v), recorded in the evidence and never pinned; strict_where_installed says what the codec theorems give for a peer that "
                   "installs a codec on every path (on /repo: the reference server for JSON; StrictProtoCodec is installed by no peer).")
@@ -242,6 +247,7 @@ class C18(Prop):
                 "c18.codec_rt": "strict codec: Unmarshal(Marshal(m)) must give m (format 0=binary 1=JSON)",
                 "c18.codec_unknown": "strict codec must reject unknown fields at any depth",
                 "c18.codec_hist": "strict codec: a message changed in place after an earlier Size/Marshal must encode as its current value",
+                "c18.codec_keep": "strict codec: an output of Marshal/MarshalAppend/MarshalStable, kept and decoded after later calls, is no longer its own message",
                 "c18.alias_http": "AddHeaders/AddTrailers/ConvertToProtoHeader: a destination changed when the source or a sibling destination was used further",
                 "c18.alias_md": "metadata conversions: a destination changed when the source or a sibling destination was used further"}.get(case[0], "") + \
             ": implementation differs from the proved lossless model"
@@ -367,6 +373,18 @@ class C18(Prop):
             steps.append([rng.choice([0, 0, 0, 1, 2]), t])
         return steps
 
+    def gen_keep_history(self, rng, json):
+        """3-8 encodings of different messages (sizes going up and down), a Size-only step now and then"""
+        steps, t = [], None
+        n = rng.choice([3, 3, 4, 5, 8])
+        while sum(1 for s in steps if s[0] != 2) < n:
+            if t is None or rng.random() < 0.5:
+                t = self.gen_tree(rng, json, 0.0)
+            else:
+                t = self.mutate_tree(rng, t, json)
+            steps.append([rng.choice([0, 0, 0, 1, 2]), t])
+        return steps
+
     def generate(self, rng, tier):
         quick = tier == "quick"
         # ---- errors: structured product, then random
@@ -443,6 +461,10 @@ class C18(Prop):
         for _ in range(12000 if quick else 50000):
             for codec in (0, 1):
                 yield ["c18.codec_hist", codec, rng.randint(0, 1), self.gen_history(rng, codec == 1)]
+        # ---- several outputs kept and decoded after all calls (returned byte slices are values, not views of a reused buffer)
+        for _ in range(4000 if quick else 20000):
+            for codec in (0, 1):
+                yield ["c18.codec_keep", codec, rng.randint(0, 1), self.gen_keep_history(rng, codec == 1)]
         # ---- the converted structures are used further: source scribbled, sibling destination appended to
         for _ in range(24000 if quick else 100000):
             hs = self.gen_headers(rng, http_names)
